@@ -203,7 +203,7 @@ func (g *FnGen) load(s *State, r string, t types.Type) string {
 		if a.Len() > 8 {
 			panic(genErr("load of large array %s", t))
 		}
-		arr := app("(as const "+reg.sortOf(t)+")", reg.zero(a.Elem()))
+		arr := reg.zero(t)
 		for i := int64(0); i < a.Len(); i++ {
 			arr = store(arr, intLit(i), g.load(s, refSub(r, intLit(i)), a.Elem()))
 		}
